@@ -1100,9 +1100,15 @@ def explore(harness, params=None, model="R", seed=0, witness_every=1, max_paths=
     worklist = [[]]
     n_done = 0
     vio_seen = {}
-    deadline = time.time() + float(os.environ.get("VERIF_TASK_TIMEOUT", "2400"))
+    deadline = time.time() + float(os.environ.get("VERIF_TASK_TIMEOUT", "2400" if os.environ.get("VERIF_TIER_RUNNING") == "thorough" else "600"))
     stopfile = os.environ.get("VERIF_STOPFILE")
+    t_start = time.time()
     while worklist:
+        if stopfile and time.time() - t_start > 60 and os.path.exists(stopfile + ".violation"):
+            # the verdict of this check is already decided by a confirmed violation elsewhere; a shard that
+            # has become slow (usually because the changed code made its queries hard) adds nothing to it
+            res.stopped_early = "stopped after 60 s: a violation was already confirmed by another shard"
+            break
         if stopfile and os.path.exists(stopfile):
             # another shard of this check already confirmed a run that never ends: every further path
             # costs a full time-out and adds nothing to the verdict
@@ -1170,6 +1176,11 @@ def explore(harness, params=None, model="R", seed=0, witness_every=1, max_paths=
             if vio_seen[key] > max_violations:
                 continue
             res.violations.append(_confirm(harness, params, model, v))
+        if stopfile and c.violations and any(v.get("status", "").startswith("confirmed") for v in res.violations):
+            try:
+                open(stopfile + ".violation", "w").close()
+            except OSError:
+                pass
         # path witness: model of pc -> concrete re-run must agree on all observations
         if end == "ok" and witness_every and (n_done % witness_every == 0):
             _witness(harness, params, model, c, res)
